@@ -196,6 +196,9 @@ pub fn alphabet(inst: usize, allowed: &[u16], ids: &[u16], layouts: usize, extra
         add(format!("T(V9,{},six fields)", id), v9p(vec![V9Set::Tpl(vec![V9Tpl { id, fields: wide.clone() }], 0)]), None, 9, true);
         add(format!("T(V9,{},one field)", id), v9p(vec![V9Set::Tpl(vec![V9Tpl { id, fields: narrow.clone() }], 0)]), None, 9, true);
         add(format!("T(IPFIX,{},six fields)", id), ipm(vec![IpfixSet::Tpl(vec![IpfixTpl { id, fields: wide }], 0)]), None, 10, true);
+        let many: Vec<FieldSpec> = (0..300).map(|k| fs(1 + (k % 3) as u16, 1)).collect();
+        add(format!("T(V9,{},300 fields)", id), v9p(vec![V9Set::Tpl(vec![V9Tpl { id, fields: many.clone() }], 0)]), None, 9, true);
+        add(format!("T(IPFIX,{},300 fields)", id), ipm(vec![IpfixSet::Tpl(vec![IpfixTpl { id, fields: many }], 0)]), None, 10, true);
         add(format!("T(IPFIX,{},one field)", id), ipm(vec![IpfixSet::Tpl(vec![IpfixTpl { id, fields: narrow }], 0)]), None, 10, true);
     }
     if extras {
